@@ -33,7 +33,7 @@ def run_demo(out, wt):
         return rc == "0", r.stdout[-1500:]
     if not crate or not demos:
         return None, "cannot determine crate/demo from README"
-    feat = re.search(r"--features[ =](\S+)", readme)
+    feat = re.search(r"cargo test[^\n]*--features[ =](\S+)", readme)
     featarg = f"--features {feat.group(1)}" if feat else ""
     if re.search(r"cargo test[^\n]*--release", readme):
         featarg += " --release"
